@@ -259,8 +259,18 @@ func scenarioC16(r *Run) {
 			return true
 		}
 	}
+	// in one run of three the applications connect at the same instant and every lock operation of the
+	// client is a seeded scheduling point: "all concurrent logical connections share a single session"
+	// must hold when they all find no session at once
+	together := c.Chance(1, 3, "connect-together")
+	if together {
+		cs.Together = true
+		r.YieldsOn("yield-seed")
+		r.Count("connections_opened_together")
+	}
 	t0 := r.SimElapsed()
 	out := r.Drive(pol, settled(cs, conns), extra, allow+30*time.Second, allow+10*time.Minute)
+	r.YieldsOff()
 	if out == Aborted {
 		return
 	}
@@ -405,8 +415,13 @@ func scenarioC16(r *Run) {
 	cs2.Cross = true
 	cs2.KeySpan = 16
 	extra2 := func() []Ev { return append(cs2.OpenEv(nil), cs2.PeerEvents()...) }
+	if together {
+		cs2.Together = true
+		r.YieldsOn("yield-seed-2")
+	}
 	t1 := r.SimElapsed()
 	out = r.Drive(pol, settled(cs2, conns2), extra2, allow+30*time.Second, allow+10*time.Minute)
+	r.YieldsOff()
 	if out == Aborted {
 		return
 	}
